@@ -10,8 +10,11 @@ import (
 )
 
 func init() {
-	props["C18"] = c18
-	floors["C18"] = map[string]int{"C18.R1": 6, "C18.R2": 14, "C18.R3": 12, "C18.R4": 4, "C18.R5": 1, "C18.R6": 1, "C18.R7": 3, "C18.R8": 7}
+	props["C18"] = func(r *Report) {
+		c18(r)
+		r.Guard("C18.R9", "every lock taken is released on every exit: the shaping locks", func() { lockPairRule(r, "trafficshape") })
+	}
+	floors["C18"] = map[string]int{"C18.R1": 6, "C18.R2": 14, "C18.R3": 12, "C18.R4": 4, "C18.R5": 1, "C18.R6": 1, "C18.R7": 3, "C18.R8": 7, "C18.R9": 1}
 }
 
 // lockStatesMay computes, before every instruction, the set of locks that may
